@@ -56,7 +56,7 @@ func TestVerifC07(t *testing.T) {
 				simIn{N: 3, Cascade: true, WaitCount: 1, Failover: true, Fault: fault, Target: 2, At: 2, Duration: 1, Ticks: 26})
 		}
 	}
-	stride := 7
+	stride := 9
 	if o.Thorough() {
 		stride = 1
 	}
@@ -77,8 +77,9 @@ func TestVerifC07(t *testing.T) {
 		for k := 1 + si%stride; k <= total+1; k += stride {
 			ks = append(ks, k)
 		}
-		if stride > 1 {
+		if stride > 1 && sh.N == 3 && !sh.NoSemiSync && sh.Duration < 1000 {
 			// the bookkeeping at the end of the procedure (recorded master, request removal, outcome) densely
+			// (quick tier: on the 3-node semi-sync shapes; the thorough tier takes every crash point of every shape)
 			for k := max(1, total-24); k <= total+1; k++ {
 				if (k-1-si%stride)%stride != 0 {
 					ks = append(ks, k)
@@ -113,6 +114,6 @@ func TestVerifC07(t *testing.T) {
 	steps.flush()
 	prefixes.flush()
 	m.DistinctNontrivial = dist.Len()
-	m.Rule = "the real daemons (one App per host, real state machine, health and recovery checkers) over fake servers: a request (switch to / switch from / operator-forced failover) on 2-3 node clusters (thorough: 4 nodes, cascade replica); the manager that processes it dies before its k-th external call for k = 1..all (quick: every 7th), with the same or another host becoming the next manager; 26 ticks of 5 s; the end state is checked; distinct = distinct crash points"
+	m.Rule = "the real daemons (one App per host, real state machine, health and recovery checkers) over fake servers: a request (switch to / switch from / operator-forced failover) on 2-3 node clusters (thorough: 4 nodes, cascade replica); the manager that processes it dies before its k-th external call for k = 1..all (quick: every 9th, and the last 25 calls of the 3-node shapes densely), with the same or another host becoming the next manager; 26 ticks of 5 s; the end state is checked; distinct = distinct crash points"
 	o.WriteMeta("c07", m)
 }
